@@ -1,6 +1,6 @@
 ------------------------------ MODULE JudgeCodec ------------------------------
 (* C16: the database codec never silently changes a circuit; C17: shipped databases. *)
-EXTENDS JudgeCore, Codec
+EXTENDS JudgeCore, Codec, Normalization
 
 C16CodecFails(c) ==
   LET ck == c.c IN
@@ -67,6 +67,12 @@ C17LookupFails(c) ==
         WFFails(c.res) # {} \/ (Len(c.res.i) = c.n /\ TT(c.res) = RowSets(c.tt))>>,
     <<"lookup-result-outside-basis", TypesIn(c.res, BasisOf(c.db))>>
   >>)
+
+(* DRIFT: the recorder's own normalisation (used to decide whether the key is stored) is not
+   the normal form of Normalization.tla *)
+C17LookupDrift(c) ==
+  IF Has(c, "norm_key") /\ RowSets(c.norm_key) # NormRows(c.n, RowSets(c.tt))
+  THEN {"recorder-normalisation-differs-from-Normalization.tla"} ELSE {}
 
 TrivialTypes == {"INPUT", "NOT", "LNOT", "RNOT", "IFF", "LIFF", "RIFF", "ALWAYS_FALSE", "ALWAYS_TRUE"}
 SizeOf(c) == Cardinality({l \in Labels(c) : c.g[l].t \notin TrivialTypes})
